@@ -31,7 +31,7 @@ SPECS = {
             'name': 'http',
             'module': 'scenarios.c20_service',
             'fault_kinds': ['http_status_500', 'http_status_429', 'http_status_404', 'http_status_503_html', 'http_timeout',
-                            'http_conn_error', 'http_html_200', 'http_truncated_json', 'http_json_null',
+                            'http_conn_error', 'http_status_204', 'http_status_202', 'http_status_302', 'http_html_200', 'http_truncated_json', 'http_json_null',
                             'http_json_error_object', 'http_empty_body', 'clock_jump', 'cache_partial'],
             'tiers': {
                 'quick': {'runs': 200, 'budget_s': 45, 'run_timeout_s': 60, 'shrink_budget_s': 40,
